@@ -16,6 +16,10 @@ REPO_DIR = os.environ.get("VERIF_REPO", "/repo")
 WORKERS = int(os.environ.get("VERIF_WORKERS", "16"))
 
 
+class StopExploration(Exception):
+    """Raised by a test body to end this worker's exploration early (what was collected so far is kept)."""
+
+
 class HarnessError(Exception):
     """Something is wrong with the machinery (exit 2), not with the property."""
 
@@ -228,6 +232,8 @@ def hyp_explore(strategy: Any, body: Callable[[Any], None], n: int, seed: int, *
 
     try:
         _t()
+    except StopExploration:
+        return
     except Exception as e:  # noqa: BLE001
         from hypothesis.errors import FailedHealthCheck, Unsatisfiable
 
